@@ -18,7 +18,7 @@ CLAIMED = {
  "C05": ("GL1-GL4 TK2 TK5 AB2", "edge-dominance and path enumeration in the GlobWalk callback + interprocedural slicing of fsys/pattern/keys over go/ssa",
          "the GlobWalk callback never returns SkipDir/SkipAll; exactly one append per non-hidden nil return; walked FS is os.DirFS(SpokFile.Dir), pattern unchanged, Globs keyed by the expanded pattern; nothing but loop/err/already-expanded(miss, non-empty hit) guards the expansion",
          "not covered: the doublestar matcher, the exact hidden-name predicate, symlinks"),
- "C08": ("PR1-PR5 LX1 LX2 FM6", "typed-syntax-tree object identity checks + lexer state-function graph reachability + loop progress path search",
+ "C08": ("PR1-PR5 LX1 LX2 FM6; supporting TL3 TL4", "typed-syntax-tree object identity checks + lexer state-function graph reachability + loop progress path search",
          "every ERROR arm reports the tested token's own Value; every illegalToken quotes the line of the token it cites; the scan ends only via an ERROR token or emit(EOF); a task body cannot reach EOF without RBRACE or error; every parser token loop advances and leaves on ERROR; no line scanner with an unconsulted Err() in lexer/parser/ast. Decides these clauses only, not totality/no-panic over all byte strings",
          "not covered: absence of panics and cursor arithmetic over all inputs (declined, value-level); line numbers within range"),
  "C09": ("SH1 SH2 RT1 RT2 RT3 RT4 GR6 CP8; supporting CP1 CP10", "error-flow discipline check (non-nil edge must end in non-nil error returns) along the whole call chain + loop/guard shape analysis over go/ssa",
@@ -33,14 +33,14 @@ CLAIMED = {
  "C13": ("EN1-EN6 TK4 PS1", "data-flow chain verification by backward slicing with object flow (templates, buffers) over go/ssa",
          "os.Environ() precedes the spokfile variables in the list given to expand.ListEnviron (last duplicate wins); the Vars -> KEY=VALUE -> Task.Run -> Runner.Run -> interp.Env chain is unbroken; Task.Commands is text/template output over the AST command text with the variables map; variables are filed under their identifier and builtin errors propagate; one Task.Commands element per command, never re-cut from expanded text; a string literal is its token text minus the quotes; the environment list is not re-ordered",
          "not covered: value semantics of join/exec and of text/template; shell quoting"),
- "C14": ("CP1f CP3f CP10; supporting CP1 CP3L CP6 GL4", "edge-dominance of force==false over every skip + force-restricted CFG path search over go/ssa",
+ "C14": ("CP1f CP3f CP10; supporting CP1 CP3L CP6 GL4 CP12", "edge-dominance of force==false over every skip + force-restricted CFG path search over go/ssa",
          "no 'skipped' store is reachable with force set; on the force==true paths a successful run never leaves a stale digest on disk; the force parameter is fed from Options.Force; (supporting, shared with C01/C05) the digest a forced run records is the digest of this iteration's inputs, computed over all inputs with globs expanded",
          "not covered: flag parsing inside the CLI library"),
- "C15": ("FM1-FM7", "may-be-empty string analysis of every String() return + edge-dominance of the docstring guard + per-iteration path enumeration over go/ssa",
+ "C15": ("FM1-FM7; supporting FX2 ST9", "may-be-empty string analysis of every String() return + edge-dominance of the docstring guard + per-iteration path enumeration over go/ssa",
          "no appended node type can print as the empty string; Tree.Write prints every node once in order; a comment becomes a docstring only when the very next token is the task keyword and never across iterations; Task.String prints it before the keyword; one Append per parse-loop iteration; a parsed comment is never dropped on a non-failing path; the parser is handed the file as read",
          "not covered: preservation of comment text and order (value-level)"),
- "C16": ("TL1 TL2 TL3 LX1 LX3", "shape analysis of the single emission site and of every store into the lexer's cursor fields (origin tracing, necessary-guard dominance, state-graph exits) over go/ssa",
-         "the structural clauses only: emit sends Token{Value: input[start:pos], Pos: start, Line: startLine} and then moves start/startLine to pos/line on every path; start only ever jumps to pos and startLine to line, together; the line counter moves by one and upward only under the necessary guard 'the decoded rune is a newline'; a scan ends only through an ERROR token or directly after emit(EOF); emit(EOF) has the necessary guard pos >= len(input)",
+ "C16": ("TL1-TL4 LX1 LX3 PR4", "shape analysis of the single emission site and of every store into the lexer's cursor fields (origin tracing, necessary-guard dominance, state-graph exits) over go/ssa",
+         "the structural clauses only: emit sends Token{Value: input[start:pos], Pos: start, Line: startLine} and then moves start/startLine to pos/line on every path; start only ever jumps to pos and startLine to line, together; the line counter moves by one and upward only under the necessary guard 'the decoded rune is a newline'; the scan position moves only by a decoded rune's width, a fixed spelling's length or a constant; the lexer scans the caller's string unchanged; a scan ends only through an ERROR token or directly after emit(EOF); emit(EOF) has the necessary guard pos >= len(input)",
          "not covered (run-time arithmetic, declined): that only whitespace lies between tokens, the value of pos/line after next/backup/absorb sequences for all inputs, CRLF and multi-byte runes, finiteness of the stream"),
  "C17": ("FD1 FD3 FD4 FD5 FD6 AB2", "loop exit-test classification by backward slicing (directory-dependent, content-independent, dominates the back edge) over go/ssa",
          "the upward walk has a content-independent exit test on every iteration and one that fires at the root; no negative answer from inside the entries loop; the hit is guarded by Name()==NAME and !IsDir() of the same entry; the stop comparison is on the listed directory after its entries were read; the CLI passes cwd/home",
